@@ -112,7 +112,7 @@ func runC14(c *Ctx) {
 	rep.Meta("cases: every serialization pair the library offers (PKCS#8 PEM with/without password, PKIX public PEM, hex private/public, compressed point, DER private/public structures, ASN.1 signature, ASN.1 ciphertext) over key classes with 1..3 leading zero bytes in d, x, y and odd hex-digit counts, password classes {nil, empty, ASCII, UTF-8, 1 KiB}, wrong passwords (one character, case, length, empty, nil), (r,s) classes (high bit set, short, 1, n-1), ciphertexts with short coordinates; TLS loaders X509KeyPair, LoadX509KeyPair, GMX509KeyPairs, LoadGMX509KeyPairs, GMX509KeyPairsSingle, LoadGMX509KeyPair with matching / mismatching / swapped pairs (SM2, RSA, P-256). Oracle: value equality (d, x, y by reference), independent PBES2 decryption of gmsm's encrypted PKCS#8, accept-iff-match for loaders. Distinct non-trivial = distinct (form, key class, password class / pair class).",
 		300, []string{"ref SM2 public-key derivation", "x/crypto/pbkdf2 + crypto/aes for the independent PKCS#8 decryption", "crypto/x509 for RSA/ECDSA certificates"},
 		[]string{"gmsm's own CreateCertificate is used to make SM2 certificates for the loaders (C09 checks it)"})
-	keys := keyClasses(c.Rng("keys"), c.Q(8, 80), true)
+	keys := keyClasses(c.Rng("keys"), c.Q(8, 400), true)
 	// odd hex-digit count: d whose top nibble is zero
 	{
 		r := c.Rng("oddhex")
@@ -317,7 +317,7 @@ func runC14(c *Ctx) {
 		nm1 := new(big.Int).Sub(ref.N, big.NewInt(1))
 		var vals []*big.Int
 		vals = append(vals, big.NewInt(1), big.NewInt(127), big.NewInt(128), big.NewInt(255), big.NewInt(256), nm1, new(big.Int).Rsh(ref.N, 1))
-		for i := 0; i < c.Q(60, 1500); i++ {
+		for i := 0; i < c.Q(60, 20000); i++ {
 			b := r.Bytes(32)
 			switch i % 4 {
 			case 0:
@@ -352,7 +352,7 @@ func runC14(c *Ctx) {
 	// --- ciphertexts with short coordinates
 	{
 		r := c.Rng("cts")
-		for i := 0; i < c.Q(100, 3000); i++ {
+		for i := 0; i < c.Q(100, 40000); i++ {
 			x, y := r.Bytes(32), r.Bytes(32)
 			cls := "full"
 			switch i % 5 {
@@ -411,7 +411,7 @@ func runC14Loaders(c *Ctx) {
 		kp, _ := gx509.WritePrivateKeyToPem(k, nil)
 		return pair{pemBlock("CERTIFICATE", der), kp, k}
 	}
-	n := c.Q(6, 40)
+	n := c.Q(6, 300)
 	var sign, enc []pair
 	for i := 0; i < n; i++ {
 		sign = append(sign, mkPair(fmt.Sprintf("sign%d.example", i), int64(100+i)))
